@@ -121,6 +121,10 @@ def game_check(prop, judged, tier, seed, fam_quick, fam_thorough, mc_roots_quick
     # (B) impl -> spec: randomized and search-shaped traces of the real Game
     n, games, plies, walk = play_quick if quick else play_thorough
     jobs += game.play_traces(run, vh, prop, n, games, plies, walk, seed)
+    # games that trade down at once from just above the endgame threshold: the table switch happens in the played game
+    pj = game.play_traces(run, vh, prop, 4 if quick else 16, 4, 30, walk, seed + 7, roots_file="phase_roots.txt", capture=70, label="phase")
+    jobs += pj
+    run.cov["phase_crossing_games"] = (4 if quick else 16) * 4
     if prop == "C01":
         # the same question through the command line: `rustybait perft 2 <fen>` divide lines against Chess!Perft
         import c12 as cli
@@ -437,6 +441,31 @@ def c05(tier, seed):
 
 # --------------------------------------------------------------------------- C17
 
+def ep_edge_fens():
+    """Sparse positions with an en-passant square on file f and exactly one pawn able to capture, on file f-1 or f+1."""
+    def rank(cells):
+        out, n = "", 0
+        for c in cells:
+            if c == ".":
+                n += 1
+            else:
+                out += (str(n) if n else "") + c
+                n = 0
+        return out + (str(n) if n else "")
+    res = []
+    for f in range(8):
+        for dd in (-1, 1):
+            if not 0 <= f + dd <= 7:
+                continue
+            w = ["."] * 8
+            w[f], w[f + dd] = "p", "P"          # White to move: black pawn just double-stepped to rank 5
+            res.append("4k3/8/8/%s/8/8/8/2K5 w - %s6 0 1" % (rank(w), "abcdefgh"[f]))
+            b = ["."] * 8
+            b[f], b[f + dd] = "P", "p"          # Black to move: white pawn just double-stepped to rank 4
+            res.append("2k5/8/8/8/%s/8/8/4K3 b - %s3 0 1" % (rank(b), "abcdefgh"[f]))
+    return res
+
+
 @check("C17")
 def c17(tier, seed):
     run = core.Run("C17", tier, seed)
@@ -473,6 +502,14 @@ def c17(tier, seed):
         jobs.append((out2, "vh fenmut --mode random --seed %d (double/triple edits)" % (seed * 100 + i)))
         return jobs
     jobs = [j for js in core.pmap(mk, [(i, c) for i, c in enumerate(chunks) if c]) for j in js]
+    # every en-passant file with the one capturing pawn on either side of it (the board edges included), both colours:
+    # well-formed texts, imported in their 4/5/6-field forms, no edits (position, legal moves, and over UCI)
+    epl = os.path.join(d, "ep-edges.fens")
+    open(epl, "w").write("\n".join(ep_edge_fens()) + "\n")
+    epo = os.path.join(d, "ep-edges.ndjson")
+    core.sh([vh, "fenmut", "--fens", epl, "--out", epo, "--mode", "bases"])
+    jobs.append((epo, "vh fenmut --mode bases (each en-passant file x capturer on either side x colour, %d texts)" % len(ep_edge_fens())))
+    run.cov["ep_edge_bases"] = len(ep_edge_fens())
     strings = set()
     accepted = 0
     n = 0
